@@ -12,7 +12,7 @@
    over ([orders]); the theorems hold for all of them. *)
 From Coq Require Import List.
 Import ListNotations.
-From Oras Require Import Base.Prelude Generated.GC08 Model.OciIndex Proofs.OciIndex Model.TarFS Proofs.TarFS Model.OciConc Proofs.OciConc.
+From Oras Require Import Base.Prelude Generated.GC08 Model.OciIndex Proofs.OciIndex Model.TarFS Proofs.TarFS Model.OciConc Proofs.OciConc Proofs.OciFuel.
 Local Open Scope nat_scope.
 
 (* AutoSaveIndex on: after EVERY history of Push/Tag/Untag/Delete/GC/SaveIndex/read-write
@@ -249,3 +249,41 @@ Example C08_concurrent_hypotheses_satisfiable :
    live _ _ s = [(RTag 0, plain 1); (RDig 1, plain 1)] /\
    disk _ _ s = [mkDesc 1 0 (Some (RTag 0))] /\ ilock _ _ s = None).
 Proof. exact concurrent_example. Qed.
+
+
+(* ================= the fuel of the model is sufficient (audit F7) =================
+   On a universe whose successor and subject links point to smaller node ids (content
+   addressing; the harness builds its DAGs bottom-up) IndexAll and the subject-chain walk of GC
+   do not depend on their fuel above N, and after any history on nodes below N Delete's queue
+   loop never stops for lack of fuel: on such universes the fuelled model is the loop of the Go
+   code.  (The rounds of GC's referrer pass have no such theorem: their fuel S |refMap| is an
+   upper bound by the argument "every continued round keeps one more entry".) *)
+Theorem C08_fuel_index_all_sufficient :
+  forall (N : nat) (mf : nat -> bool) (succs : nat -> list nat),
+    (forall k c, In c (succs k) -> c < k) ->
+    forall bl root g fuel, root < N -> N < fuel ->
+      index_all N mf succs bl root g = visit mf succs fuel (fun k => mem k bl) root g.
+Proof. exact index_all_fuel_sufficient. Qed.
+Print Assumptions C08_fuel_index_all_sufficient.
+
+Theorem C08_fuel_subject_chain_sufficient :
+  forall (N : nat) (mf : nat -> bool) (subj : nat -> option nat) (sk : nat -> bool),
+    (forall k c, subj k = Some c -> c < k) ->
+    forall bl g cur fuel, cur < N -> N < fuel ->
+      chain_hits mf subj sk (S N) bl g cur = chain_hits mf subj sk fuel bl g cur.
+Proof. exact chain_hits_fuel_sufficient. Qed.
+Print Assumptions C08_fuel_subject_chain_sufficient.
+
+Theorem C08_fuel_delete_sufficient :
+  forall (N : nat) (mf : nat -> bool) (succs : nat -> list nat) (subj : nat -> option nat)
+         (sk bad : nat -> bool) (fF2 fA fF1 fH fR : bool) (cfg : config) (h : list (op * orders))
+         (o : orders) (k : nat),
+    Forall (fun oo => op_below N (fst oo)) h ->
+    let s := run N mf succs subj sk bad fF2 fA fF1 fH fR cfg h store_empty in
+    snd (st_delete N mf succs subj fH cfg o k s) <> ROutOfFuel.
+Proof. exact delete_fuel_sufficient. Qed.
+Print Assumptions C08_fuel_delete_sufficient.
+
+Example C08_fuel_hypotheses_satisfiable :
+  (forall k c, In c (ex_succs k) -> c < k) /\ Forall (fun oo => op_below 3 (fst oo)) ex_hist.
+Proof. exact fuel_example. Qed.
